@@ -168,11 +168,11 @@ PROPS = {
     "C02": dict(suites=PARSE_ALL, drivers=["corpus"]),
     "C03": dict(suites=["FORMAT-1", "FORMAT-2", "PARSE-QUAL", "BUILDER-G"], drivers=["scalars", "builder-ops"]),
     "C04": dict(suites=PARSE_ALL + BUILD_ALL + ["SHAPES", "SYSTEM-G", "SYSTEM-T"], drivers=["garbage", "builder-ops"]),
-    "C05": dict(suites=PARSE_ALL, drivers=["corpus", "garbage"]),
+    "C05": dict(suites=PARSE_ALL + ["CHECKSUM"], drivers=["corpus", "garbage"]),
     "C06": dict(suites=PARSE_ALL + ["QUAL", "QUAL-SIM", "CHECKSUM", "BUILDER-G", "BUILDER-T", "BUILDER-SIM-G", "FORMAT-1", "TYPES-LOOKUP", "TYPES-COMB", "TYPES-NAMES", "TYPES-STR", "SHAPES", "SYSTEM-T"], drivers=["garbage", "corpus", "scalars", "qual-ops", "checksum-ops", "builder-ops", "type-strings", "combined", "big"]),
     "C07": dict(suites=["PARSE-NS", "PARSE-SUB", "PARSE-PATH", "PARSE-SEP", "SPELL", "FAULT"], drivers=["garbage", "corpus"]),
     "C08": dict(suites=["TYPES-NAMES", "PARSE-TYPED", "BUILDER-T", "TYPES-COMB"], drivers=["scalars"]),
-    "C09": dict(suites=BUILD_ALL + ["FORMAT-1", "FORMAT-2", "SYSTEM-G", "SYSTEM-T"], drivers=["builder-ops"]),
+    "C09": dict(suites=BUILD_ALL + ["FORMAT-1", "FORMAT-2", "SYSTEM-G", "SYSTEM-T", "TYPES-NAMES", "TYPES-STR"], drivers=["builder-ops"]),
     "C10": dict(suites=PARSE_ALL + ["BUILDER-G", "BUILDER-T", "FORMAT-1", "TYPES-NAMES", "CHECKSUM", "SYSTEM-G", "SYSTEM-T"], drivers=["scalars", "corpus"]),
     "C11": dict(suites=["QUAL", "QUAL-SIM"], drivers=["qual-ops"]),
     "C12": dict(suites=["CHECKSUM", "BUILDER-G", "PARSE-QUAL", "SPELL"], drivers=["checksum-ops", "corpus"]),
